@@ -46,6 +46,13 @@ SHAPES = [
     "lambda e: e.x + G_DUP + cap + G_CAP",
     "lambda e: e.js.Select(lambda j: j + G_DUP).Where(lambda G_DUP: G_DUP > G_CAP)",
     "lambda e: [G_DUP + 1 for G_DUP in e.js] + [G_DUP, gcap]",
+    # parameters of nested lambdas that are positional-only, keyword-only, *args / **kwargs; defaults (evaluated in the enclosing scope)
+    "lambda e: e.js.Select(lambda j, /, *, cap=cap: j + cap).Count() + cap",
+    "lambda e: e.js.Select(lambda *gcap, **G_CAP: (gcap, G_CAP, cap)).Count() + G_CAP + gcap",
+    "lambda e: (lambda cap, /: cap + 1)(e.x) + cap + e.js.Select(lambda j, gcap=gcap: j + gcap)",
+    # names bound by an assignment expression are local to the lambda they are in
+    "lambda e: (cap := e.x) + cap + G_CAP",
+    "lambda e: e.js.Select(lambda j: (gcap := j.pt) + gcap) if cap > 0 else gcap",
 ]
 NSHAPES = len(SHAPES)
 G_CAP = 0
@@ -65,12 +72,29 @@ ALT = [None, [1, "a"], (1, 2), {"a": 1}, {1}, object()]
 Val = Union[int, bool, str, float, bytes]
 
 
+def walrus_targets(body):
+    "names assigned with := in a lambda body (they are locals of that lambda); nested lambdas have their own"
+    out = set()
+
+    def walk(n):
+        if isinstance(n, ast.Lambda):
+            return
+        if isinstance(n, ast.NamedExpr):
+            out.add(n.target.id)
+        for c in ast.iter_child_nodes(n):
+            walk(c)
+    walk(body)
+    return out
+
+
 def expected(n, bound, env):
     "fresh tree with every FREE occurrence of a captured name / attribute chain replaced by a Constant holding the captured value"
     if isinstance(n, ast.Lambda):
-        b2 = bound | {a.arg for a in n.args.args}
-        args = ast.arguments(posonlyargs=[], args=[ast.arg(a.arg) for a in n.args.args], vararg=None, kwonlyargs=[], kw_defaults=[], kwarg=None,
-                             defaults=[expected(d, bound, env) for d in n.args.defaults])
+        a = n.args
+        b2 = bound | {x.arg for x in a.posonlyargs + a.args + a.kwonlyargs} | {x.arg for x in (a.vararg, a.kwarg) if x is not None} | walrus_targets(n.body)
+        args = ast.arguments(posonlyargs=[ast.arg(x.arg) for x in a.posonlyargs], args=[ast.arg(x.arg) for x in a.args], vararg=ast.arg(a.vararg.arg) if a.vararg else None,
+                             kwonlyargs=[ast.arg(x.arg) for x in a.kwonlyargs], kw_defaults=[expected(d, bound, env) if d is not None else None for d in a.kw_defaults],
+                             kwarg=ast.arg(a.kwarg.arg) if a.kwarg else None, defaults=[expected(d, bound, env) for d in a.defaults])
         return ast.Lambda(args, expected(n.body, b2, env))
     if isinstance(n, (ast.ListComp, ast.GeneratorExp)):
         g = n.generators[0]
@@ -106,7 +130,7 @@ def uses(src_tree, env, v):
 
 def c04(code: int, alt: int, hist: int, v: Val, g: int, v2: int) -> str:
     """
-    pre: LO <= code < HI and 0 <= code < 27
+    pre: LO <= code < HI and 0 <= code < 32
     pre: 0 <= alt <= 6 and 0 <= hist <= 3
     pre: not isinstance(v, str) or len(v) <= 3
     pre: not isinstance(v, bytes) or len(v) <= 3
